@@ -596,6 +596,15 @@ class Service(object):
             if self.decorate:
                 execute = rec.operation(extractor if spec.op.extractor else None)(execute)
             ns['execute'] = execute
+        if getattr(spec.op, 'subclass_of_decorated_base', False):
+            # the operation and the recording parameters are declared on a base class; the service runs a subclass
+            base = type('Base' + spec.op.name, (object,), ns)
+            D.register('Base' + spec.op.name, base)
+            if self.decorate:
+                rec.recording_params(RecordingParameters(**(spec.op.params or {})))(base)
+            cls = type(spec.op.name, (base,), {})
+            D.register(spec.op.name, cls)
+            return cls
         cls = type(spec.op.name, (object,), ns)
         D.register(spec.op.name, cls)
         if self.decorate and spec.op.params is not None:
@@ -926,7 +935,7 @@ class Recorded(object):
         self.saved = False
 
 
-def record_once(spec, run, cassette, rseed=0, thread_factory=None, recorder=None, sim=None, sent=False, service=None):
+def record_once(spec, run, cassette, rseed=0, thread_factory=None, recorder=None, sim=None, sent=False, service=None, within_except=False):
     """Live run of the service with recording enabled over `cassette` (wrapped in a spy)."""
     out = Recorded()
     if recorder is not None and isinstance(recorder.tape_cassette, SpyCassette):
@@ -946,7 +955,14 @@ def record_once(spec, run, cassette, rseed=0, thread_factory=None, recorder=None
     if sent:
         out.svc.sent = []
     before = len(out.spy.calls)
-    out.outcome = call_outcome(out.svc.invoke)
+    if within_except:
+        # the caller invokes the operation while it is handling another exception (fallback / retry code)
+        try:
+            raise KeyError('the caller is handling this while it invokes the operation')
+        except KeyError:
+            out.outcome = call_outcome(out.svc.invoke)
+    else:
+        out.outcome = call_outcome(out.svc.invoke)
     new = out.spy.calls[before:]
     created = [c[1] for c in new if c[0] == 'create']
     out.rec_id = created[-1] if created else None
